@@ -90,17 +90,23 @@ def _mk(idxs):
 # ---------------------------------------------------------------------------
 # sender
 
-def sender_case(idxs):
+def sender_case(idxs, noreply=()):
+    """noreply: positions of the calls made with expectReply=False"""
     cw = fakes.ClientWorld(unix=True)
     try:
         start = len(cw.transport.log)
         msgs = _mk(idxs)
         try:
-            for sig, vals, fds in msgs:
+            for k_, (sig, vals, fds) in enumerate(msgs):
+                kw = {}
+                if k_ in noreply:
+                    kw['expectReply'] = False
+                    if k_ % 2:
+                        kw['timeout'] = 5
                 cw.conn.callRemote('/p', 'M', interface='a.b',
                                    destination='c.d',
                                    signature=sig or None,
-                                   body=vals if sig else None)
+                                   body=vals if sig else None, **kw)
         except Exception as e:
             return [('sender-raises-%s' % type(e).__name__,
                      'callRemote raised %r' % (e,))]
@@ -569,6 +575,21 @@ def _task_send(task):
                           % ([BODIES[i][0] for i in idxs], what),
                           {'part': 'send', 'idxs': list(idxs)},
                           size=len(idxs))
+        # the same calls with some of them not expecting a reply
+        for nr in ((0,), (len(idxs) - 1,), tuple(range(len(idxs)))):
+            if len(idxs) == 1 and nr != (0,):
+                continue
+            res.count('transitions')
+            res.count('evaluations')
+            res.count('traces')
+            for tag, what in sender_case(idxs, noreply=nr):
+                res.violation('%s/sender/no-reply/%s' % (PROP, tag),
+                              'calls with bodies %r, those at %r made with '
+                              'expectReply=False: %s'
+                              % ([BODIES[i][0] for i in idxs], list(nr),
+                                 what),
+                              {'part': 'send', 'idxs': list(idxs),
+                               'noreply': list(nr)}, size=len(idxs))
     return res
 
 
@@ -707,7 +728,8 @@ def replay(data):
         return [('%s/receiver/%s' % (PROP, t), w)
                 for t, w in run_many_fds(tuple(a[0]), a[1], a[2])]
     if data['part'] == 'send':
-        found = sender_case(tuple(data['idxs']))
+        found = sender_case(tuple(data['idxs']),
+                            noreply=tuple(data.get('noreply', ())))
         return [('%s/sender/%s' % (PROP, t), w) for t, w in found]
     found = receiver_case(tuple(data['idxs']), tuple(data['cuts']),
                           tuple(data['order']), data['little'],
